@@ -379,7 +379,7 @@ def build_unit(repo, overlay_path, out_path):
                 body = "\n".join("    " + l for l in body.split("\n"))
             report["changed"].append({"key": b["key"], "path": b["path"]})
         origin = {"kind": "item", "key": b["key"], "path": b["path"], "src_line": src_line, "ovl_line": b["line"],
-                  "changed": changed, "rules": fired, "emitted_owner": b["opts"].get("impl_header"), "emitted_name": b["opts"].get("name"),
+                  "changed": changed, "rules": fired, "emitted_owner": ("" if b["opts"].get("free") else b["opts"].get("impl_header")), "emitted_name": b["opts"].get("name"),
                   "assumed": "verifier::external_body" in b["text"]}
         report["items"].append(origin)
         if b["opts"].get("fragment"):
